@@ -269,8 +269,12 @@ static void gen(Emitter &em, const Options &opt) {
             menu.push_back("F" + std::to_string(o) + "," + std::to_string(L) + ",66"); menu.push_back("F" + std::to_string(o) + "," + std::to_string(2 * L) + ",67");
         }
         menu.push_back("X0;C0,1"); menu.push_back("X0;M0,1"); menu.push_back("X1;M1,2"); menu.push_back("X2;D2"); menu.push_back("X1;C1,0");
-        int depth = thorough ? 3 : 2;
-        for (size_t c0 : classes) for (size_t c1 : classes) for (size_t c2 : {(size_t)0, (size_t)L - 1, (size_t)2 * L}) {
+        // thorough: depth 3 for char and char32_t (third object short / long), depth 2 for char16_t and wchar_t, which share
+        // every line of code with them (8.5 M histories for depth 3 on all four types took 27 min; this is 3 M)
+        bool deep = thorough && (std::string(ty.w) == "8" || std::string(ty.w) == "32");
+        int depth = deep ? 3 : 2;
+        std::vector<size_t> third = deep ? std::vector<size_t>{(size_t)L - 1, (size_t)2 * L} : std::vector<size_t>{0, (size_t)L - 1, (size_t)2 * L};
+        for (size_t c0 : classes) for (size_t c1 : classes) for (size_t c2 : third) {
             Rng r2(c0 * 131 + c1 * 17 + c2 + 5);
             std::string pro = "U0:" + rand_units(r2, c0, ty.bits) + ";U1:" + rand_units(r2, c1, ty.bits) + ";U2:" + rand_units(r2, c2, ty.bits);
             std::vector<size_t> idx(depth, 0);
